@@ -573,12 +573,52 @@ func TestC06(t *testing.T) {
 
 	leastConnThroughStack(run)
 	roundRobinThroughStack(run)
+	priorityAfterClientAborts(run)
 	run.Require("through_stack_probe_rounds", 8)
 	run.Require("lists_enumerated", 1000)
 	run.Require("rr_histories_linearizable", int64(rrConc*9/10))
 	run.Require("lc_concurrent_selects", 1000)
 	run.Require("tier_lists", 20)
 	run.Finish(t)
+}
+
+// priorityAfterClientAborts: clients that give up on slow requests say nothing about the
+// endpoint: it stays healthy and routable, so priority routing keeps choosing its tier.
+func priorityAfterClientAborts(run *rep.Run) {
+	for ei, eng := range []string{"olla", "sherpa"} {
+		f, err := fw.New(fw.Opt{Engine: eng, Balancer: "priority", N: 2, Priorities: []int{100, 50}})
+		if err != nil {
+			run.Inconclusive("world failed to start: " + err.Error())
+			return
+		}
+		impatient := world.NewClient(false, 150*time.Millisecond)
+		for i := 0; i < 6; i++ {
+			f.Run(impatient, fmt.Sprintf("pa%da%d", ei, i), []fw.Fault{{Kind: "stall_before_headers"}, {Kind: "ok"}}, "", nil, nil)
+		}
+		st := f.W.Statuses()
+		hc := world.NewClient(false, 10*time.Second)
+		var landed []int
+		for i := 0; i < 4; i++ {
+			c := f.Run(hc, fmt.Sprintf("pa%dn%d", ei, i), []fw.Fault{{Kind: "ok"}, {Kind: "ok"}}, "", nil, nil)
+			for _, a := range c.Attempts {
+				landed = append(landed, a.Backend)
+			}
+		}
+		f.Close()
+		run.Eval("priority/after-client-aborts/" + eng)
+		run.Count("priority_after_abort_cases", 1)
+		if st["b0"] != "healthy" {
+			run.Count("priority_after_abort_primary_not_healthy", 1) // then the lower tier is a legitimate choice
+			continue
+		}
+		for _, b := range landed {
+			if b != 0 {
+				run.Violation("C06/priority/lower-tier-chosen-after-client-aborts/"+eng, fmt.Sprintf("six clients gave up on slow requests to the priority-100 endpoint, which stayed healthy; the next requests landed on %v (0 = priority 100, 1 = priority 50)", landed),
+					map[string]any{"engine": eng, "statuses": st, "landed": landed})
+				break
+			}
+		}
+	}
 }
 
 // roundRobinThroughStack: round-robin through the running proxy over a stable set of healthy
